@@ -111,3 +111,40 @@ Definition answer_trans (e : engine) (s : rsec_x) (local : option trans) : trans
 Definition answer_sections (e : engine) (x : xstate) (secs : list (rsec_x * option trans))
   : result (list lsection) :=
   sections_of e x (map (fun st => (answer_trans e (fst st) (snd st), Some (rs_exts (fst st)))) secs).
+
+(* ---------- C10 as a predicate on a generated section (specification side) ---------- *)
+
+Fixpoint nodup_N (l : list N) : bool :=
+  match l with
+  | [] => true
+  | a :: t => negb (existsb (N.eqb a) t) && nodup_N t
+  end.
+Fixpoint nodup_Z (l : list Z) : bool :=
+  match l with
+  | [] => true
+  | a :: t => negb (existsb (Z.eqb a) t) && nodup_Z t
+  end.
+Fixpoint nodup_str (l : list string) : bool :=
+  match l with
+  | [] => true
+  | a :: t => negb (existsb (String.eqb a) t) && nodup_str t
+  end.
+
+(* every RTX entry's apt names a listed payload type *)
+Definition rtx_apts_listed (l : list codec) : bool :=
+  forallb (fun c => if is_rtx c then
+                      match apt_of c with
+                      | Some a => match parse_atoi_pt a with
+                                  | Some p => existsb (pt_is p) l
+                                  | None => false
+                                  end
+                      | None => false
+                      end
+                    else true) l.
+
+Definition section_ok (s : lsection) : bool :=
+  nodup_N (sec_formats s)
+  && rtx_apts_listed (l_codecs s)
+  && nodup_Z (map fst (l_exts s))
+  && forallb (fun iu => Z.leb 1 (fst iu) && Z.leb (fst iu) 14) (l_exts s)
+  && nodup_str (map snd (l_exts s)).
